@@ -1,3 +1,140 @@
 package c19net
 
-func (r *run) mesh() error { return nil }
+import (
+	"fmt"
+	"sort"
+	"time"
+)
+
+// Mesh worlds: several REAL servers, each with its real consensus service and its own ledger, connected to each other over
+// real loopback TCP (every server dials the ones created before it: ServerConfig.Seeds), one fake OBSERVER connection per
+// server (barriers, transactions, what the server announces, block fetches).  Time is virtual: a round fires the armed dBFT
+// timer with the earliest deadline and lets everything settle.
+
+func (r *run) meshNodes(dir string) ([]map[string]any, error) {
+	var seeds []string
+	nodes := []map[string]any{}
+	for _, ns := range r.sp.Nodes {
+		n, err := newNode(r.w, nodeOpts{id: ns.ID, h0: ns.H0, minPeers: ns.MinPeers, bcast: 100, onOwn: r.learnOwn, copyID: r.copyID,
+			seeds: append([]string(nil), seeds...)}, r.log, r.clk, dir)
+		if err != nil {
+			return nil, err
+		}
+		r.nodes[ns.ID] = n
+		seeds = append(seeds, fmt.Sprintf("127.0.0.1:%d", n.port))
+		nodes = append(nodes, map[string]any{"n": ns.ID, "id": ns.ID, "minp": ns.MinPeers, "h0": ns.H0, "obs": len(r.sp.Nodes) == 1})
+	}
+	return nodes, nil
+}
+
+func (r *run) running() []*node {
+	ids := make([]int, 0, len(r.nodes))
+	for id := range r.nodes {
+		ids = append(ids, id)
+	}
+	sort.Ints(ids)
+	var out []*node
+	for _, id := range ids {
+		if n := r.nodes[id]; !n.stopped.Load() {
+			out = append(out, n)
+		}
+	}
+	return out
+}
+
+func (r *run) minHeight() int {
+	m := -1
+	for _, n := range r.running() {
+		if h := int(n.bc.BlockHeight()); m < 0 || h < m {
+			m = h
+		}
+	}
+	return m
+}
+
+// awaitStarted waits (real time: the servers dial each other on their protocol ticks) until every running server has started
+// its consensus service; expiry is inconclusive.
+func (r *run) awaitStarted() error {
+	dl := time.Now().Add(90 * time.Second)
+	for {
+		all := true
+		for _, n := range r.running() {
+			if !n.started.Load() {
+				all = false
+			}
+		}
+		if all {
+			return nil
+		}
+		if time.Now().After(dl) {
+			return fmt.Errorf("mesh %s: servers did not connect to each other: %w", r.sp.Name, errTimeout)
+		}
+		time.Sleep(2 * time.Millisecond)
+	}
+}
+
+// rounds plays a synchronous phase: nothing is lost, the earliest timer fires when nothing else can happen.
+func (r *run) rounds(s Step) error {
+	if err := r.sync(); err != nil {
+		return err
+	}
+	r.emit(map[string]any{"event": "round", "first": true, "minh": r.minHeight(), "bound": s.I, "fired": -1})
+	for k := 0; k < s.Rounds; k++ {
+		var best *node
+		var bd time.Time
+		for _, n := range r.running() {
+			if n.timer == nil {
+				continue
+			}
+			if d, armed := n.timer.deadlineOf(); armed && (best == nil || d.Before(bd)) {
+				best, bd = n, d
+			}
+		}
+		if best == nil {
+			break
+		}
+		h := best.timer.Height()
+		fired := best.timer.fire()
+		r.emit(map[string]any{"event": "timeout", "n": best.id, "h": int(h), "fired": fired})
+		if err := r.sync(); err != nil {
+			return err
+		}
+		r.emit(map[string]any{"event": "round", "first": false, "minh": r.minHeight(), "bound": s.I, "fired": best.id})
+		if s.DH > 0 && r.minHeight() >= s.DH {
+			break
+		}
+	}
+	return nil
+}
+
+// included: which of the named transactions are in no block of node N's ledger.
+func (r *run) included(s Step) {
+	n := r.nodeOf(s)
+	pending := []string{}
+	for _, t := range s.T {
+		tx := r.tx(t, false)
+		if tx == nil {
+			continue
+		}
+		if _, h, err := n.bc.GetTransaction(tx.Hash()); err != nil || h == ^uint32(0) {
+			pending = append(pending, sid(tx.Hash()))
+		}
+	}
+	r.emit(map[string]any{"event": "included", "n": n.id, "pending": pending, "h": int(n.bc.BlockHeight())})
+}
+
+// feedAll fetches every block the reference ledger lacks from node N over connection P and offers it to the reference ledger.
+func (r *run) feedAll(s Step) error {
+	p := r.peers[s.P]
+	if p == nil || !p.alive() {
+		return nil
+	}
+	for i := int(r.w.ref.BlockHeight()) + 1; i <= int(p.to.bc.BlockHeight()); i++ {
+		st := s
+		st.I, st.By = i, []string{"hash", "index"}[i%2]
+		if err := r.fetchBlock(st); err != nil {
+			return err
+		}
+	}
+	return nil
+}
